@@ -44,6 +44,8 @@ def make_jobs(seed, n, only_compute=False, tag="c01"):
         import c11
         for i in range(0, n, 12):
             jobs[i] = c11.stale_reader_job(rng, "%s-%05d" % (tag, i))
+        for i in range(5, n, 6):
+            jobs[i] = c11.tree_contention_job(rng, "%s-%05d" % (tag, i))
     # a share of the jobs runs with real threads (no scheduler)
     for j in jobs[:: 10]:
         j["sched"] = {"kind": "os"}
